@@ -178,5 +178,481 @@ theorem lookup_delete_removed {m : PMap Noti} {c : Noti → Bool} {q k : Path} {
   rw [hk', this] at h2
   simp [hk] at h2
 
+/-! ### what one `gnmiUpdate1` does -/
+
+theorem metaSideEffect_frame {t t' : Target} {name : String} {v : Val}
+    (h : metaSideEffect t name v = some t') :
+    t'.tree = t.tree ∧ t'.latest = t.latest ∧ t'.name = t.name := by
+  unfold metaSideEffect at h
+  repeat' split at h
+  all_goals first
+    | (cases h; exact ⟨rfl, rfl, rfl⟩)
+    | (simp at h)
+
+theorem metaPre_frame {t t' : Target} {h : String} {rest : Path} {v : Val} {rd : Bool}
+    (hp : metaPre t h rest v = some (t', rd)) :
+    t'.tree = t.tree ∧ t'.latest = t.latest ∧ t'.name = t.name := by
+  unfold metaPre at hp
+  split at hp
+  · split at hp
+    · cases hp
+    · simp only [Option.map_eq_some_iff, Prod.mk.injEq] at hp
+      obtain ⟨t0, h0, rfl, _⟩ := hp
+      exact metaSideEffect_frame h0
+  · cases hp; exact ⟨rfl, rfl, rfl⟩
+
+theorem verdict_accept_ts {cfg : Cfg} {now : Int} {l : Option Int} {old n : Noti}
+    (h : verdict cfg now l old n = .accept) : old.ts ≤ n.ts := by
+  unfold verdict at h
+  split at h
+  · cases h
+  · omega
+
+/-- what a single `gnmiUpdate1` can do to a target's tree (`key` = index of the update) -/
+inductive Effect (t : Target) (n : Noti) (key : Path) : Res × Target × Option Noti → Prop
+  | rejected (r : Res) (t' : Target) : r = .stale ∨ r = .future ∨ r = .err → t'.tree = t.tree →
+      t'.latest = t.latest → t'.name = t.name → Effect t n key (r, t', none)
+  | replaced (t' : Target) (ev : Option Noti) (old : Noti) :
+      key ≠ [] → lookup t.tree key = some old → old.ts ≤ n.ts →
+      t'.tree = setLeaf t.tree key n → t'.latest = t.latest → t'.name = t.name →
+      (ev = none ∨ ev = some n) → Effect t n key (.ok, t', ev)
+  | added (t' : Target) :
+      key ≠ [] → lookup t.tree key = none → PMap.add t.tree key n = some t'.tree →
+      t'.latest = t.latest → t'.name = t.name → Effect t n key (.ok, t', some n)
+  | panicOld (t' : Target) (old : Noti) : lookup t.tree key = some old → old.upd = [] →
+      Effect t n key (.panic, t', none)
+
+theorem updateCore_effect (cfg : Cfg) (now : Int) (t t0 : Target) (realData : Bool) (path : Path)
+    (n : Noti) (u : Upd) (hp : path ≠ [])
+    (h1 : t0.tree = t.tree) (h2 : t0.latest = t.latest) (h3 : t0.name = t.name) :
+    Effect t n path (updateCore cfg now t0 realData path n u) := by
+  unfold updateCore
+  cases hl : lookup t0.tree path with
+  | some old =>
+    have hl' : lookup t.tree path = some old := by rw [← h1]; exact hl
+    simp only
+    cases hv : verdict cfg now t0.latest old n with
+    | stale => exact .rejected _ _ (Or.inl rfl) h1 h2 h3
+    | future => exact .rejected _ _ (Or.inr (Or.inl rfl)) h1 h2 h3
+    | accept =>
+      have hts := verdict_accept_ts hv
+      simp only
+      split
+      · exact .replaced _ _ old hp hl' hts (by simp [h1]) h2 h3 (Or.inr rfl)
+      · split
+        · rename_i ho; exact .panicOld _ old hl' ho
+        · split
+          · exact .replaced _ _ old hp hl' hts (by simp [h1]) h2 h3 (Or.inl rfl)
+          · exact .replaced _ _ old hp hl' hts (by simp [h1]) h2 h3 (Or.inr rfl)
+  | none =>
+    have hl' : lookup t.tree path = none := by rw [← h1]; exact hl
+    simp only
+    cases ha : PMap.add t0.tree path n with
+    | none => exact .rejected _ _ (Or.inr (Or.inr rfl)) h1 h2 h3
+    | some tree' =>
+      have ha' : PMap.add t.tree path n = some tree' := by rw [← h1]; exact ha
+      simp only
+      cases realData
+      · exact .added _ hp hl' (by simpa using ha') h2 h3
+      · exact .added _ hp hl' (by simpa using ha') h2 h3
+
+theorem gnmiUpdate1_effect (cfg : Cfg) (now : Int) (t : Target) (n : Noti) (u : Upd) (us : List Upd)
+    (hu : n.upd = u :: us) (ht : n.target ≠ "") :
+    Effect t n (updKey n u) (Target.gnmiUpdate1 cfg now t n) := by
+  have hk' : updKey? n u = some (updKey n u) := by
+    unfold updKey? updKey; exact joinKey?_eq _ _ ht
+  unfold Target.gnmiUpdate1
+  simp only [hu, hk']
+  generalize updKey n u = key
+  match key with
+  | [] => exact .rejected _ _ (Or.inr (Or.inr rfl)) rfl rfl rfl
+  | h :: rest =>
+    simp only
+    cases hp : metaPre t h rest u.val with
+    | none => exact .rejected _ _ (Or.inr (Or.inr rfl)) rfl rfl rfl
+    | some tr =>
+      obtain ⟨t0, rd⟩ := tr
+      obtain ⟨h1, h2, h3⟩ := metaPre_frame hp
+      exact updateCore_effect cfg now t t0 rd (h :: rest) n u (by simp) h1 h2 h3
+
+/-! ### what one `gnmiRemove1` does -/
+
+theorem filter_not_of_filter_nil {α : Type} (p : α → Bool) (l : List α) (h : l.filter p = []) :
+    l.filter (fun x => !p x) = l := by
+  rw [List.filter_eq_self]
+  intro x hx
+  have := List.filter_eq_nil_iff.1 h x hx
+  simpa using this
+
+theorem resetMetaFor_frame (t : Target) (path : Path) :
+    (resetMetaFor t path).tree = t.tree ∧ (resetMetaFor t path).latest = t.latest ∧
+    (resetMetaFor t path).name = t.name := by
+  unfold resetMetaFor
+  split
+  · split <;> exact ⟨rfl, rfl, rfl⟩
+  · exact ⟨rfl, rfl, rfl⟩
+
+theorem allSome_none_witness (ts : Int) : ∀ (l : List (Path × Noti)),
+    allSome (l.map (fun kv => toDeleteEvent? kv.2 ts)) = none → ∃ kv ∈ l, kv.2.upd = []
+  | [], h => by simp [allSome] at h
+  | y :: ys, h => by
+    simp only [List.map_cons] at h
+    cases hy : toDeleteEvent? y.2 ts with
+    | none =>
+      refine ⟨y, List.mem_cons_self .., ?_⟩
+      unfold toDeleteEvent? at hy
+      split at hy
+      · assumption
+      · cases hy
+    | some e =>
+      rw [hy] at h
+      simp only [allSome, Option.map_eq_none_iff] at h
+      obtain ⟨kv, hkv, hu⟩ := allSome_none_witness ts ys h
+      exact ⟨kv, List.mem_cons_of_mem _ hkv, hu⟩
+
+theorem removeCore_spec (t : Target) (ts : Int) (path : Path) :
+    let r := removeCore t ts path
+    let del := PMap.delete (olderThan ts) t.tree path
+    r.1.tree = del.1 ∧ r.1.latest = t.latest ∧ r.1.name = t.name ∧
+    (r.2.2 = false → allSome (del.2.map (fun kv => toDeleteEvent? kv.2 ts)) = some r.2.1) ∧
+    (r.2.2 = true → ∃ kv ∈ del.2, kv.2.upd = []) := by
+  intro r del
+  have hr : r = removeCore t ts path := rfl
+  unfold removeCore at hr
+  simp only at hr
+  change r = (match del.2 with
+    | [] => (t, [], false)
+    | x :: xs =>
+      match allSome ((x :: xs).map (fun kv => toDeleteEvent? kv.2 ts)) with
+      | none => ({ t with tree := del.1 }, [], true)
+      | some evs =>
+        ({ t with tree := del.1,
+                  md := { t.md with
+                    leaves := t.md.leaves - (((x :: xs).filter (fun kv => !isMetaKey kv.1)).length : Nat),
+                    deleted := t.md.deleted + (((x :: xs).filter (fun kv => !isMetaKey kv.1)).length : Nat) } },
+         evs, false)) at hr
+  cases hrem : del.2 with
+  | nil =>
+    rw [hrem] at hr
+    have htree : del.1 = t.tree := filter_not_of_filter_nil _ _ hrem
+    rw [hr]
+    refine ⟨htree.symm, rfl, rfl, ?_, ?_⟩
+    · intro _; simp [allSome]
+    · intro h; cases h
+  | cons x xs =>
+    rw [hrem] at hr
+    simp only at hr
+    cases hall : allSome ((x :: xs).map (fun kv => toDeleteEvent? kv.2 ts)) with
+    | none =>
+      rw [hall] at hr
+      simp only at hr
+      rw [hr]
+      refine ⟨rfl, rfl, rfl, ?_, ?_⟩
+      · intro h; cases h
+      · intro _; exact allSome_none_witness ts _ hall
+    | some evs =>
+      rw [hall] at hr
+      simp only at hr
+      rw [hr]
+      refine ⟨rfl, rfl, rfl, ?_, ?_⟩
+      · intro _; rfl
+      · intro h; cases h
+
+theorem gnmiRemove1_spec (t : Target) (n : Noti) (d : Del) (ds : List Del)
+    (hd : n.del = d :: ds) (ht : n.target ≠ "") :
+    let r := Target.gnmiRemove1 t n
+    let del := PMap.delete (olderThan n.ts) t.tree (joinKey n d.path)
+    r.1.tree = del.1 ∧ r.1.latest = t.latest ∧ r.1.name = t.name ∧
+    (r.2.2 = false → allSome (del.2.map (fun kv => toDeleteEvent? kv.2 n.ts)) = some r.2.1) ∧
+    (r.2.2 = true → ∃ kv ∈ del.2, kv.2.upd = []) := by
+  intro r del
+  have hk : joinKey? n d.path = some (joinKey n d.path) := joinKey?_eq _ _ ht
+  have hr : r = removeCore (resetMetaFor t (joinKey n d.path)) n.ts (joinKey n d.path) := by
+    show Target.gnmiRemove1 t n = _
+    unfold Target.gnmiRemove1
+    simp only [hd, hk]
+  obtain ⟨f1, f2, f3⟩ := resetMetaFor_frame t (joinKey n d.path)
+  have := removeCore_spec (resetMetaFor t (joinKey n d.path)) n.ts (joinKey n d.path)
+  simp only [f1] at this
+  rw [hr]
+  obtain ⟨a, b, c, d', e⟩ := this
+  exact ⟨a, b.trans f2, c.trans f3, d', e⟩
+
+/-! ### the structural invariant of a target and the two monotonicity relations -/
+
+/-- keys are unique and every stored notification carries at least one update -/
+structure TInv (t : Target) : Prop where
+  unique : UniqueKeys t.tree
+  hasUpd : ∀ kv ∈ t.tree, kv.2.upd ≠ []
+
+theorem TInv.of_tree_eq {t t' : Target} (h : t'.tree = t.tree) (hi : TInv t) : TInv t' :=
+  ⟨by rw [h]; exact hi.unique, by rw [h]; exact hi.hasUpd⟩
+
+theorem TInv.with_md {t : Target} (hi : TInv t) (m : Meta) : TInv { t with md := m } :=
+  ⟨hi.unique, hi.hasUpd⟩
+
+/-- no key disappears and no stored timestamp decreases -/
+def Grow (t t' : Target) : Prop :=
+  ∀ k old, lookup t.tree k = some old → ∃ new, lookup t'.tree k = some new ∧ old.ts ≤ new.ts
+
+/-- nothing is added or changed (leaves may disappear) -/
+def Shrink (t t' : Target) : Prop :=
+  ∀ k v, lookup t'.tree k = some v → lookup t.tree k = some v
+
+/-- a leaf present before and after holds a timestamp that did not decrease -/
+def TsMono (t t' : Target) : Prop :=
+  ∀ k old new, lookup t.tree k = some old → lookup t'.tree k = some new → old.ts ≤ new.ts
+
+theorem Grow.refl (t : Target) : Grow t t := fun _ old h => ⟨old, h, Int.le_refl _⟩
+
+theorem Grow.of_tree_eq {t t' : Target} (h : t'.tree = t.tree) : Grow t t' := by
+  intro k old hl; exact ⟨old, by rw [h]; exact hl, Int.le_refl _⟩
+
+theorem Grow.trans {a b c : Target} (h1 : Grow a b) (h2 : Grow b c) : Grow a c := by
+  intro k old hl
+  obtain ⟨m, hm, h⟩ := h1 k old hl
+  obtain ⟨n, hn, h'⟩ := h2 k m hm
+  exact ⟨n, hn, Int.le_trans h h'⟩
+
+theorem Grow.with_md {a b : Target} (h : Grow a b) (m : Meta) : Grow a { b with md := m } := h
+
+theorem Shrink.refl (t : Target) : Shrink t t := fun _ _ h => h
+
+theorem Shrink.of_tree_eq {t t' : Target} (h : t'.tree = t.tree) : Shrink t t' := by
+  intro k v hl; rw [h] at hl; exact hl
+
+theorem Shrink.trans {a b c : Target} (h1 : Shrink a b) (h2 : Shrink b c) : Shrink a c :=
+  fun k v h => h1 k v (h2 k v h)
+
+theorem Shrink.with_md {a b : Target} (h : Shrink a b) (m : Meta) : Shrink a { b with md := m } := h
+
+theorem Shrink.from_md {a b : Target} (m : Meta) (h : Shrink { a with md := m } b) : Shrink a b := h
+
+theorem TsMono.of_grow_shrink {a b c : Target} (h1 : Grow a b) (h2 : Shrink b c) : TsMono a c := by
+  intro k old new ho hn
+  obtain ⟨m, hm, h⟩ := h1 k old ho
+  have := h2 k new hn
+  rw [hm] at this
+  cases this
+  exact h
+
+/-- consequences of one non-panicking `gnmiUpdate1` -/
+theorem Effect.consequences {t : Target} {n : Noti} {key : Path} {r : Res × Target × Option Noti}
+    (he : Effect t n key r) (hi : TInv t) (hn : n.upd ≠ []) :
+    r.1 ≠ .panic ∧ TInv r.2.1 ∧ Grow t r.2.1 ∧ r.2.1.latest = t.latest ∧ r.2.1.name = t.name := by
+  cases he with
+  | rejected r t' hr h1 h2 h3 =>
+    refine ⟨?_, hi.of_tree_eq h1, Grow.of_tree_eq h1, h2, h3⟩
+    rcases hr with rfl | rfl | rfl <;> simp
+  | replaced t' ev old hk hl hts h1 h2 h3 _ =>
+    refine ⟨by simp, ⟨?_, ?_⟩, ?_, h2, h3⟩
+    · rw [h1]; exact setLeaf_unique _ _ hi.unique
+    · rw [h1]
+      intro kv hkv
+      rcases mem_setLeaf.1 hkv with ⟨_, h, _⟩ | ⟨h, _⟩
+      · rw [h]; exact hn
+      · exact hi.hasUpd kv h
+    · intro k o ho
+      by_cases hkk : k = key
+      · subst hkk
+        rw [hl] at ho; cases ho
+        exact ⟨n, by rw [h1]; exact lookup_setLeaf_same hi.unique hl, hts⟩
+      · exact ⟨o, by rw [h1, lookup_setLeaf_other hi.unique hkk]; exact ho, Int.le_refl _⟩
+  | added t' hk hl ha h2 h3 =>
+    refine ⟨by simp, ⟨add_unique hi.unique ha, ?_⟩, ?_, h2, h3⟩
+    · rw [add_eq_some ha]
+      intro kv hkv
+      rcases List.mem_cons.1 hkv with rfl | h
+      · exact hn
+      · exact hi.hasUpd kv (List.mem_filter.1 h).1
+    · intro k o ho
+      have hkk : k ≠ key := by
+        intro e; subst e; rw [hl] at ho; cases ho
+      exact ⟨o, by rw [lookup_add_other ha hkk]; exact ho, Int.le_refl _⟩
+  | panicOld t' old hl ho =>
+    exact absurd ho (hi.hasUpd (key, old) (mem_of_lookup_some hl))
+
+theorem gnmiUpdate1_consequences (cfg : Cfg) (now : Int) (t : Target) (n : Noti)
+    (hi : TInv t) (hn : n.upd ≠ []) (ht : n.target ≠ "") :
+    let r := Target.gnmiUpdate1 cfg now t n
+    r.1 ≠ .panic ∧ TInv r.2.1 ∧ Grow t r.2.1 ∧ r.2.1.latest = t.latest ∧ r.2.1.name = t.name := by
+  match hu : n.upd with
+  | [] => exact absurd hu hn
+  | u :: us => exact (gnmiUpdate1_effect cfg now t n u us hu ht).consequences hi hn
+
+/-- consequences of one `gnmiRemove1` -/
+theorem gnmiRemove1_consequences (t : Target) (n : Noti) (hi : TInv t) (hd : n.del ≠ [])
+    (ht : n.target ≠ "") :
+    let r := Target.gnmiRemove1 t n
+    r.2.2 = false ∧ TInv r.1 ∧ Shrink t r.1 ∧ r.1.latest = t.latest ∧ r.1.name = t.name := by
+  match hdd : n.del with
+  | [] => exact absurd hdd hd
+  | d :: ds =>
+    obtain ⟨h1, h2, h3, _, h5⟩ := gnmiRemove1_spec t n d ds hdd ht
+    refine ⟨?_, ⟨?_, ?_⟩, ?_, h2, h3⟩
+    · cases hp : (Target.gnmiRemove1 t n).2.2 with
+      | false => rfl
+      | true =>
+        obtain ⟨kv, hkv, hu⟩ := h5 hp
+        exact absurd hu (hi.hasUpd kv (List.mem_filter.1 hkv).1)
+    · rw [h1]; exact delete_unique _ _ hi.unique
+    · rw [h1]; intro kv hkv; exact hi.hasUpd kv (List.mem_filter.1 hkv).1
+    · intro k v hl
+      rw [h1] at hl
+      exact lookup_delete_some hi.unique hl
+
+/-! ### lifting through the loops of a multi-update notification -/
+
+/-- what the loops maintain about the accumulator, relative to a reference target `t0` and a
+relation `R` (`Grow` for the update loop, `Shrink` for the delete loop) -/
+structure AccOK (R : Target → Target → Prop) (t0 : Target) (acc : MultiAcc) : Prop where
+  noPanic : acc.panicked = false
+  inv : TInv acc.t
+  rel : R t0 acc.t
+  latest : acc.t.latest = t0.latest
+  name : acc.t.name = t0.name
+
+theorem multiUpdates_ok (cfg : Cfg) (now : Int) (hdr : Noti) (hh : hdr.target ≠ "") (t0 : Target) :
+    ∀ (us : List Upd) (acc : MultiAcc), AccOK Grow t0 acc → AccOK Grow t0 (multiUpdates cfg now hdr us acc)
+  | [], acc, h => by simpa [multiUpdates] using h
+  | u :: us, acc, h => by
+    have hc := gnmiUpdate1_consequences cfg now acc.t { hdr with upd := [u], del := [] } h.inv
+      (by simp) hh
+    simp only at hc
+    obtain ⟨c1, c2, c3, c4, c5⟩ := hc
+    have hp := h.noPanic
+    unfold multiUpdates
+    simp only [hp, Bool.false_eq_true, if_false, c1]
+    split
+    · apply multiUpdates_ok cfg now hdr hh t0 us
+      exact ⟨rfl, c2, h.rel.trans c3, c4.trans h.latest, c5.trans h.name⟩
+    · split
+      · apply multiUpdates_ok cfg now hdr hh t0 us
+        exact ⟨rfl, c2.with_md _, (h.rel.trans c3).with_md _, c4.trans h.latest, c5.trans h.name⟩
+      · apply multiUpdates_ok cfg now hdr hh t0 us
+        exact ⟨rfl, c2, h.rel.trans c3, c4.trans h.latest, c5.trans h.name⟩
+
+theorem multiDeletes_ok (hdr : Noti) (hh : hdr.target ≠ "") (t0 : Target) :
+    ∀ (ds : List Del) (acc : MultiAcc), AccOK Shrink t0 acc → AccOK Shrink t0 (multiDeletes hdr ds acc)
+  | [], acc, h => by simpa [multiDeletes] using h
+  | d :: ds, acc, h => by
+    have hc := gnmiRemove1_consequences
+      { acc.t with md := { acc.t.md with updated := acc.t.md.updated + 1 } }
+      { hdr with upd := [], del := [d] } (h.inv.with_md _) (by simp) hh
+    simp only at hc
+    obtain ⟨c1, c2, c3, c4, c5⟩ := hc
+    have hp := h.noPanic
+    unfold multiDeletes
+    simp only [hp, Bool.false_eq_true, if_false, c1]
+    apply multiDeletes_ok hdr hh t0 ds
+    exact ⟨rfl, c2, h.rel.trans (Shrink.from_md _ c3), c4.trans h.latest, c5.trans h.name⟩
+
+/-! ### a whole notification -/
+
+theorem checkTimestamp_frame (t : Target) (ts : Int) :
+    (t.checkTimestamp ts).tree = t.tree ∧ (t.checkTimestamp ts).name = t.name := by
+  unfold Target.checkTimestamp
+  split
+  · exact ⟨rfl, rfl⟩
+  · split <;> exact ⟨rfl, rfl⟩
+
+theorem singleArm_ok {t : Target} {r : Res × Target × Option Noti} (cnt : Int)
+    (h : r.1 ≠ .panic ∧ TInv r.2.1 ∧ Grow t r.2.1 ∧ r.2.1.latest = t.latest ∧ r.2.1.name = t.name) :
+    (singleArm r cnt).1 ≠ .panic ∧ TInv (singleArm r cnt).2.1 ∧ Grow t (singleArm r cnt).2.1 ∧
+    (singleArm r cnt).2.1.name = t.name := by
+  obtain ⟨c1, c2, c3, _, c5⟩ := h
+  unfold singleArm
+  split
+  · exact ⟨c1, c2, c3, c5⟩
+  · split
+    · exact ⟨by simp, c2.with_md _, c3.with_md _, c5⟩
+    · exact ⟨by simp, c2, c3, c5⟩
+
+/-- The switch of `Target.GnmiUpdate` never panics on a well-formed target, keeps the
+invariant, and moves the tree by "grow, then shrink". -/
+theorem dispatch_ok (cfg : Cfg) (now : Int) (t : Target) (n : Noti) (hi : TInv t) (ht : n.target ≠ "") :
+    let r := t.dispatch cfg now n
+    r.1 ≠ .panic ∧ TInv r.2.1 ∧ (∃ mid, Grow t mid ∧ Shrink mid r.2.1) ∧ r.2.1.name = t.name := by
+  intro r
+  have hr : r = t.dispatch cfg now n := rfl
+  unfold Target.dispatch at hr
+  split at hr
+  · -- atomic
+    split at hr
+    · rw [hr]; exact ⟨by simp, hi, ⟨t, Grow.refl t, Shrink.refl t⟩, rfl⟩
+    · split at hr
+      · rw [hr]; exact ⟨by simp, hi.with_md _, ⟨t, Grow.refl t, (Shrink.refl t).with_md _⟩, rfl⟩
+      · rename_i _ _ hne
+        have hn : n.upd ≠ [] := by
+          intro e; rw [e] at hne; simp at hne
+        obtain ⟨a, b, c, d⟩ := singleArm_ok (t := t) ((n.upd.length : Nat) : Int)
+          (gnmiUpdate1_consequences cfg now t n hi hn ht)
+        rw [hr]; exact ⟨a, b, ⟨_, c, Shrink.refl _⟩, d⟩
+  · split at hr
+    · -- multi
+      have ha := multiUpdates_ok cfg now { n with upd := [], del := [] } ht t n.upd { t := t }
+        ⟨rfl, hi, Grow.refl t, rfl, rfl⟩
+      have hb := multiDeletes_ok { n with upd := [], del := [] } ht
+        (multiUpdates cfg now { n with upd := [], del := [] } n.upd { t := t }).t n.del
+        (multiUpdates cfg now { n with upd := [], del := [] } n.upd { t := t })
+        ⟨ha.noPanic, ha.inv, Shrink.refl _, rfl, rfl⟩
+      simp only [hb.noPanic, Bool.false_eq_true, if_false] at hr
+      rw [hr]
+      refine ⟨?_, hb.inv, ⟨_, ha.rel, hb.rel⟩, hb.name.trans ha.name⟩
+      split <;> simp
+    · split at hr
+      · rename_i _ _ h1
+        have hn : n.upd ≠ [] := by
+          intro e; rw [e] at h1; simp at h1
+        obtain ⟨a, b, c, d⟩ := singleArm_ok (t := t) 1
+          (gnmiUpdate1_consequences cfg now t n hi hn ht)
+        rw [hr]; exact ⟨a, b, ⟨_, c, Shrink.refl _⟩, d⟩
+      · split at hr
+        · rename_i _ _ _ h1
+          have hd : n.del ≠ [] := by
+            intro e; rw [e] at h1; simp at h1
+          have hc := gnmiRemove1_consequences
+            { t with md := { t.md with updated := t.md.updated + 1 } } n (hi.with_md _) hd ht
+          simp only at hc
+          obtain ⟨c1, c2, c3, _, c5⟩ := hc
+          simp only [c1, Bool.false_eq_true, if_false] at hr
+          rw [hr]
+          exact ⟨by simp, c2, ⟨t, Grow.refl t, Shrink.from_md _ c3⟩, c5⟩
+        · rw [hr]; exact ⟨by simp, hi.with_md _, ⟨t, Grow.refl t, (Shrink.refl t).with_md _⟩, rfl⟩
+
+theorem tracksTimestamp?_isSome (n : Noti) (ht : n.target ≠ "") : ∃ b, tracksTimestamp? n = some b := by
+  unfold tracksTimestamp?
+  split
+  · rename_i u _ _
+    have : updKey? n u = some (updKey n u) := by
+      unfold updKey? updKey; exact joinKey?_eq _ _ ht
+    rw [this]
+    split
+    · rename_i h; cases h
+    · exact ⟨_, rfl⟩
+    · exact ⟨_, rfl⟩
+  · exact ⟨_, rfl⟩
+
+/-- **Whole notification.** `Target.GnmiUpdate` of any shape on a well-formed target: no
+panic, the invariant is kept, no surviving leaf's timestamp decreases. -/
+theorem gnmiUpdate_ok (cfg : Cfg) (now : Int) (t : Target) (n : Noti) (hi : TInv t) (ht : n.target ≠ "") :
+    let r := t.gnmiUpdate cfg now n
+    r.1 ≠ .panic ∧ TInv r.2.1 ∧ TsMono t r.2.1 ∧ r.2.1.name = t.name := by
+  intro r
+  obtain ⟨b, hb⟩ := tracksTimestamp?_isSome n ht
+  obtain ⟨d1, d2, ⟨mid, d3, d4⟩, d5⟩ := dispatch_ok cfg now t n hi ht
+  have hr : r = ((t.dispatch cfg now n).1,
+      (if (t.dispatch cfg now n).2.2.2 && b then (t.dispatch cfg now n).2.1.checkTimestamp n.ts
+       else (t.dispatch cfg now n).2.1), (t.dispatch cfg now n).2.2.1) := by
+    show t.gnmiUpdate cfg now n = _
+    unfold Target.gnmiUpdate
+    rw [hb]
+  rw [hr]
+  simp only
+  split
+  · obtain ⟨f1, f2⟩ := checkTimestamp_frame (t.dispatch cfg now n).2.1 n.ts
+    exact ⟨d1, d2.of_tree_eq f1, TsMono.of_grow_shrink d3 (d4.trans (Shrink.of_tree_eq f1)), f2.trans d5⟩
+  · exact ⟨d1, d2, TsMono.of_grow_shrink d3 d4, d5⟩
+
 end Cache
 end Gnmi
